@@ -315,6 +315,11 @@ FAMILY_NS = {'shop': SHOP, 'tree': TREE, 'ctx': CTX, 'poly': POLY, 'fx': FX, 'un
 # families with special purposes (not part of the shared rotation): xsi:type-dependent identity constraints
 FX_XSD = f'''<?xml version="1.0" encoding="UTF-8"?>
 <xs:schema xmlns:xs="{XS}" targetNamespace="{FX}" xmlns:f="{FX}" elementFormDefault="qualified">
+  <!-- fixed values of pattern-restricted unions: comparing the value with the fixed one decodes both -->
+  <xs:simpleType name="FU1"><xs:restriction><xs:simpleType><xs:union memberTypes="xs:int xs:NCName"/></xs:simpleType>
+    <xs:pattern value="[0-9 ]+"/></xs:restriction></xs:simpleType>
+  <xs:simpleType name="FU2"><xs:restriction><xs:simpleType><xs:union memberTypes="xs:int xs:token"/></xs:simpleType>
+    <xs:pattern value="[a-z1 ]+"/></xs:restriction></xs:simpleType>
   <xs:element name="fx">
     <xs:complexType>
       <xs:sequence>
@@ -325,6 +330,8 @@ FX_XSD = f'''<?xml version="1.0" encoding="UTF-8"?>
         <xs:element name="mx" fixed="abc" minOccurs="0" maxOccurs="unbounded">
           <xs:complexType mixed="true"><xs:sequence><xs:element name="b" type="xs:string" minOccurs="0"/></xs:sequence></xs:complexType>
         </xs:element>
+        <xs:element name="u1" type="f:FU1" fixed="7" minOccurs="0" maxOccurs="unbounded"/>
+        <xs:element name="u2" type="f:FU2" fixed="1" minOccurs="0" maxOccurs="unbounded"/>
       </xs:sequence>
       <xs:attribute name="k" type="xs:decimal" fixed="2.50"/>
     </xs:complexType>
@@ -695,6 +702,10 @@ def gen_fx(rng, fault=None):
     # mixed content with a fixed value: an empty element takes the value, any other text is compared with it
     for _ in range(rng.choice((0, 0, 1, 2))):
         root.children.append(N(F, 'mx', text=rng.choice(('abc', '', ' ', 'abd', None))))
+    for _ in range(rng.choice((0, 1, 2))):
+        root.children.append(N(F, 'u1', text=rng.choice(('7', '07', ' 7', '007', '8'))))
+    for _ in range(rng.choice((0, 1, 2))):
+        root.children.append(N(F, 'u2', text=rng.choice(('1', ' 1', '1 ', ' 1 ', 'a'))))
     return root
 
 
